@@ -112,6 +112,18 @@ def gen(tier, seed):
         for x, y in ((a, b), (b, a), (b, c), (a, c), (a, a)):
             cases.append("eql\t%s\t%s" % (dumps(x), dumps(y)))
             dist["eql pairs/triples"] += 1
+    # member values that agree up to an embedded NUL (a JSON string may hold one) and differ behind it, in content or length:
+    # different thumbprint inputs, hence unequal keys -- and equal when the whole strings are equal
+    nulk = [({"kty": "oct", "k": "AAEC\u0000Aw"}, "k"), ({"kty": "RSA", "e": "AQAB", "n": "0vx7\u0000agoeb"}, "n"), ({"kty": "RSA", "e": "AQ\u0000AB", "n": "0vx7agoeb"}, "e"),
+            ({"kty": "EC", "crv": "P-256", "x": "MKBC\u0000TNIc", "y": "4Etl6SRW"}, "x"), ({"kty": "EC", "crv": "P-256\u0000", "x": "MKBCTNIc", "y": "4Etl6SRW"}, "crv")]
+    for j, m in nulk:
+        head = j[m].split("\u0000")[0]
+        for other in (head + "\u0000different", head + "\u0000", head, j[m] + "x", j[m]):
+            j2 = dict(j, **{m: other})
+            for x, y in ((j, j2), (j2, j)):
+                cases.append("eql\t%s\t%s" % (dumps(x), dumps(y)))
+                dist["eql: values with an embedded NUL"] += 1
+        cases.append("thp\t%s\tS256" % dumps(j))
     for x in ([], "s", 5, None, {}):
         cases.append("eql\t%s\t%s" % (dumps(x), dumps(rfc)))
         cases.append("eql\t%s\t%s" % (dumps(rfc), dumps(x)))
